@@ -132,6 +132,18 @@ func (c *checker) runHistory(h []int, all bool) (key string, what string, pruned
 			}
 		}
 	}
+	// Key manager genesis: empty blocks until the key manager status exists (first epoch transition).
+	if c.w.opts.KeyManager && !c.noWarmup {
+		for i := 0; i < 8 && !kmRead(b.ref()).status.IsInitialized; i++ {
+			out, err := b.exec(&c.alpha[0])
+			if err != nil {
+				return "", "harness: " + err.Error(), false
+			}
+			if out.results[0].Panic != "" {
+				return "", "harness: warm-up block failed: " + out.results[0].Panic, false
+			}
+		}
+	}
 	// Scripted prefix (GenesisOptions.Prefix): part of the initial state, not of the history.
 	for _, nm := range c.w.opts.Prefix {
 		var pl *letter
@@ -417,6 +429,14 @@ func runHistories(r *ev.Run) {
 		// old deposit and also carrying enough yes votes, closes after the first one was executed
 		variants = append(variants, chain.GenesisOptions{EpochInterval: 2, NodeExpiration: 14, Prefix: []string{"gov-submit-mindeposit(e1,500)", "gov-vote(e2,#1,yes)", "gov-vote(e1,#1,yes)", "gov-submit-upgrade(e0)", "gov-vote(e2,#2,yes)", "gov-vote(e1,#2,yes)"}})
 	}
+	if prop == "C10" || prop == "C01" {
+		// a key manager runtime (no TEE hardware) served by all nodes: node re-registrations with every kind of
+		// enclave init response, master / ephemeral secret publication, policy updates; before and at 26.1
+		variants = append(variants, chain.GenesisOptions{KeyManager: true, EpochInterval: 2, NodeExpiration: 30, Escrow: []uint64{3000, 3000, 3000}})
+		if prop == "C10" || r.Thorough() {
+			variants = append(variants, chain.GenesisOptions{KeyManager: true, EpochInterval: 3, NodeExpiration: 30, Escrow: []uint64{3000, 3000, 3000}, Feature261: true})
+		}
+	}
 	if prop == "C05" || prop == "C10" || (prop == "C01" && r.Thorough()) {
 		// a vault at genesis: funds held by a module account with a withdraw hook, actions that execute inner messages
 		variants = append(variants, chain.GenesisOptions{Vault: true, EpochInterval: 3})
@@ -438,6 +458,16 @@ func runHistories(r *ev.Run) {
 	}
 	if prop == "C05" && r.Thorough() {
 		variants = append(variants, chain.GenesisOptions{MinTransactBalance: 10, LastBlockFees: 7, EpochInterval: 2})
+	}
+	if sel := os.Getenv("VERIF_ONLY_VARIANTS"); sel != "" {
+		// developer switch: km | vrf
+		var keep []chain.GenesisOptions
+		for _, v := range variants {
+			if (sel == "km" && v.KeyManager) || (sel == "vrf" && v.VRF) {
+				keep = append(keep, v)
+			}
+		}
+		variants = keep
 	}
 	if r.Replay != "" {
 		v, err := ev.LoadReplay(r.Replay)
